@@ -16,10 +16,7 @@ InQuick == {
   << <<<<2, 0>>>>, <<<<1, 0>>, <<0, 0>>>> >> }
 InThorough == InQuick \cup {
   << <<<<2, 0>>, <<0, 1>>, <<2, 1>>>>, <<<<1, 1>>, <<0, 0>>>> >>,
-  << <<<<0, 2>>, <<3, 0>>>>, <<<<2, 1>>, <<2, 1>>, <<1, 0>>>> >>,
-  << <<<<1, 1>>, <<0, 0>>, <<2, 2>>>>, <<<<2, 0>>, <<1, 2>>, <<0, 1>>>> >>,
-  << <<<<3, 1>>, <<3, 0>>, <<0, 1>>, <<1, 0>>>>, <<<<2, 0>>, <<2, 1>>>> >>,
-  << <<<<0, 0>>, <<1, 1>>>>, <<<<1, 0>>, <<0, 1>>, <<3, 2>>>> >> }
+  << <<<<1, 1>>, <<0, 0>>, <<2, 2>>>>, <<<<2, 0>>, <<1, 2>>, <<0, 1>>>> >> }
 Cfgs == {[method |-> m, strat |-> s, ratio |-> <<1, 2>>] :
             m \in {"replacement", "single_pass", "dynamic"}, s \in {"none", "by_label", "by_group"}}
 
